@@ -89,6 +89,11 @@ OHLC4(c) == FxDivInt(FxAdd(FxAdd(c.o, c.h), FxAdd(c.l, c.c)), 4)
 CLVnum(c) == FxSub(FxSub(c.c, c.l), FxSub(c.h, c.c))
 CLVden(c) == FxSub(c.h, c.l)
 CLV(c)   == IF FxIsZero(CLVden(c)) THEN FxZero ELSE FxDiv(CLVnum(c), CLVden(c))
+\* magnitude of a candle's prices
+CMag(c) == FxMax(FxMax(FxAbs(c.o), FxAbs(c.h)), FxMax(FxAbs(c.l), FxAbs(c.c)))
+\* conditioning of a term clv * volume: the numerator of clv is a difference of price-sized quantities, rounded at price
+\* scale, so the term is only determined up to a few eps * P / (h - l) * v
+CLVCond(c) == IF FxIsZero(CLVden(c)) THEN FxZero ELSE FxMul(FxDiv(CMag(c), CLVden(c)), c.v)
 \* true range with a previous close
 TRClose(c, pc) == FxSub(FxMax(c.h, pc), FxMin(c.l, pc))
 ADIDef(n, h) == FxSum([i \in 1..n |-> LET c == Last(h, n)[i] IN FxMul(CLV(c), c.v)])
